@@ -17,7 +17,7 @@ RELEVANT = {
     "C07": ["capacity_contract", "len_gt_cap", "cap_exceeds_block", "spare_view_wrong", "storage_moved"],
     "C08": ["lost_overalignment", "misaligned", "walign_"],
     "C09": ["capacity_contract", "cap_exceeds_block", "len_gt_cap", "hang", "profile_disagreement", "crash"],
-    "C10": ["iter_protocol", "garbage_yielded", "crash"],
+    "C10": ["iter_protocol", "garbage_yielded", "crash", "vec_mismatch"],
     "C11": ["accepted_out_of_range", "rejected_in_range", "changed_by_rejected_call"],
     "C12": OWN + ALLOCM + ["iter_protocol", "garbage_yielded", "crash", "clone_shares_storage"],
     "C14": ["raw_roundtrip_moved", "crash", "len_gt_cap", "cap_exceeds_block"] + OWN,
